@@ -140,12 +140,49 @@ Fixpoint fold_tolerant (start : N) (c : cons) (l : list event) : option cons :=
       end
   end.
 
+(* W1 (conclusion audit): two clauses the property text has and the acceptance condition did not.
+
+   (1) "terminated" only when it "falls behind by more than its buffer": a subscription reported dropped was
+       delivered at least `cap` items (received + still queued + burst blocks).  Without it a subscription
+       dropped for no reason was accepted whenever what it had received was a prefix (sequential mode) and
+       without any condition at all in concurrent mode.  (Check/C08S_Check.v has this clause, drop_justified,
+       for its own cases only.)
+
+   (2) a with-forks subscription: its burst (plain blocks, so_forks) was not looked at by the property at all,
+       and in concurrent mode nothing tied the burst to the position of the first later event.  Now: every
+       block of the burst exactly once, and the join: p = number of hub events before the first event the
+       subscription received after its burst (known in sequential mode; in concurrent mode the later events
+       are a suffix of the log, so p = |log| - |later|); the block of the last New / New+Irreversible event
+       before p is the hub's head at the snapshot, it is stored, so when its number is at or above the
+       requested start it is in the burst.  A block processed between the computation of the burst and the
+       registration (registration not atomic with block processing) makes that block the head before p
+       without being in the burst. *)
+Definition head_before (l : list event) : option block :=
+  fold_left (fun acc e => if step_eqb (estep e) SNew || step_eqb (estep e) SNewIrr then Some (eblk e) else acc) l None.
+
+Fixpoint nodupN (l : list N) : bool :=
+  match l with [] => true | x :: l' => negb (memN x l') && nodupN l' end.
+
+Definition c08_drop_justified (o : sub_obs) : bool :=
+  negb (so_dropped o) || (so_cap o <=? N.of_nat (length (concat (so_chunks o)) + length (so_forks o))).
+
+Definition c08_forks_ok (mode : N) (log : list event) (log_at : list N) (o : sub_obs) (rest : list event) : bool :=
+  if negb (so_kind o =? 3) then true else
+  nodupN (ids (so_forks o)) &&
+  (if (mode =? 1) && so_dropped o then true else
+   let p := if mode =? 0 then N.to_nat (nth (N.to_nat (so_at o)) log_at 0) else (length log - length rest)%nat in
+   match head_before (firstn p log) with
+   | None => true
+   | Some hb => (bnum hb <? so_start o) || memN (bid hb) (ids (so_forks o))
+   end).
+
 Definition c08_sub_ok (mode : N) (log : list event) (log_at : list N) (o : sub_obs) : bool :=
   if negb (so_served o) then true else
   let recv := concat (so_chunks o) in
   let nburst := N.to_nat (so_cap o - 100) in
   let burst := if so_kind o =? 3 then [] else firstn nburst recv in
   let rest := if so_kind o =? 3 then recv else skipn nburst recv in
+  c08_drop_justified o && c08_forks_ok mode log log_at o rest &&
   (* after its burst a subscription receives every later hub event, in order, exactly once *)
   (if so_dropped o then
      (if mode =? 0 then is_prefix rest (skipn (N.to_nat (nth (N.to_nat (so_at o)) log_at 0)) log) else true)
